@@ -419,5 +419,19 @@ CHECKS["C01"]["bounds"] += "; plus a reader suspended inside get_state() (holdin
 CHECKS["C08"]["bounds"] += "; plus a reader suspended inside get_state() holding the state lock across a publication (K=1)"
 CHECKS["C08"]["outside"] = "reader threads between a phase boundary and the next scheduling point other than those listed; more than one reader suspended at a time; torn reads (excluded by the Mutex)"
 
+G_FOLD_CD = [_g("g_fold_k2_close_drop", _W_G + "; close() through a clone while the backlog is queued, then drop(DroppableStore): the drop still waits for the backlog", "2 actions"), _g("g_fold_k1_close_drop", _W_G + "; clone.close(); drop(DroppableStore)", "1 action")]
+CHECKS["C15"]["quick"] += G_FOLD_CD[:1]
+CHECKS["C15"]["thorough"] += G_FOLD_CD[1:]
+CHECKS["C04"]["thorough"] += G_FOLD_CD[:1]
+CHECKS["C15"]["bounds"] += "; plus close() through another clone before the drop (backlog 1-2)"
+
+_W_NEST = "REAL loop run FIRST on an open store (phases summarised, realisable): during the effect phase of action 0 a middleware dispatches x synchronously through the dispatcher the loop handed it, while action 1 (dispatch already returned) is still queued; the client calls close() when the loop finds the queue empty, then stop(); oracle: a0, a1, x each pass the pipeline exactly once, in that (real-time) order, each fed its predecessor's state, one at a time, all before stop() returns"
+G_NEST = [_g("g_nested_cap3", _W_NEST, "capacity 3"), _g("g_nested_cap2", _W_NEST, "capacity 2 (queue full when the loop starts)")]
+CHECKS["C02"]["quick"] += G_NEST[:1]
+CHECKS["C02"]["thorough"] += G_NEST[1:]
+CHECKS["C01"]["thorough"] += G_NEST[:1]
+CHECKS["C07"]["thorough"] += G_NEST[:1]
+CHECKS["C02"]["bounds"] += "; plus one action dispatched synchronously from inside a middleware callback (through the dispatcher the loop hands to callbacks) with one action queued"
+
 HOOK_COMMITS = ['da8b80e', '8cd617e', '39efd23']
 NOT_APPLICABLE = {}
